@@ -71,6 +71,10 @@ def _gen_filters(rng, dump):
         elif tm:
             t = rng.pick(tm)
             f['proc'] = t[2] if rng.chance(0.5) else str(t[1])
+            renamed = dump.get('renames') or []
+            if renamed and rng.chance(0.4):
+                f['proc'] = rng.pick(renamed)        # the name a process takes later in the capture (exec)
+                f.pop('tid', None)                   # (a thread filter removes the announcing thread's records before decoding, as with 'born')
             if f['proc'].isdigit() and rng.chance(0.25):
                 f['proc'] = rng.pick(['0' + f['proc'], '+' + f['proc'], ' ' + f['proc'], f['proc'] + ' '])    # int() accepts it; it is neither the name nor the pid text
             if 'tid' in f and (rng.chance(0.5) or dump.get('born')):
@@ -213,6 +217,16 @@ def generate(rng, index, tier):
                     {'k': 'raw', 'id': MOVED_BSD_ID, 'q': 1, 'a': list(s_)}, worlds.op_lookup(rng, rng.pick([10, 40])),
                     {'k': 'raw', 'id': MOVED_BSD_ID, 'q': 2, 'a': list(e_)}]})
                 d['moved_bsd'] = True
+        if d['writer'].get('tmap') and rng.chance(0.2):
+            # a process of the thread map execs in the middle of a call of one of its threads: START, the exec announcement with
+            # the new name, END - the call belongs to the process under its new name from the announcement on
+            th = rng.pick(d['threads'])
+            ent = [t for t in d['writer']['tmap'] if t[0] == th['tid']]
+            if ent:
+                newname = rng.ident(3, 9)
+                s_, e_ = worlds.domains.draw(rng, 'BSC_read')
+                th['ops'].insert(rng.randrange(len(th['ops']) + 1), {'k': 'sys', 'name': 'BSC_read', 's': s_, 'e': e_, 'in': [worlds.op_exec(rng, ent[0][1], newname)]})
+                d.setdefault('renames', []).append(newname)
         if rng.chance(0.2):
             old = d['threads'][0]['tid']
             d['threads'][0]['tid'] = 0          # thread id 0
@@ -401,7 +415,8 @@ def execute(scn):
             return None, tool.codes()
         if mode == 'other':
             if di not in other_tables:
-                t2 = dict(tables[di])
+                # (the caller takes the table the library hands out and edits THAT object in place: it is the caller's own)
+                t2 = tool.tc_mod.default_trace_codes() if tables[di] == tool.codes() else dict(tables[di])
                 t2.pop(worlds.catalog()['ids']['BSC_getpid'], None)
                 t2[0x2f00beec] = 'BSC_getpid'
                 t2[MOVED_ID] = 'TRACE_STRING_PROC_EXIT'
@@ -510,6 +525,11 @@ def execute(scn):
             ref, rexc = ref_traces(di, tref)
             if rexc is not None:
                 hist.append([what, 'ref-raised', type(rexc).__name__])
+                continue
+            if cur.get('tid') is not None and cur.get('proc') in (scn['dumps'][di].get('renames') or []):
+                # (the thread filter removes the renaming thread's announcement before decoding: by design, not judged)
+                bump('premise_skipped')
+                hist.append([what, 'premise-skipped'])
                 continue
             if cur.get('proc') is not None and (cls or sub or cur.get('tid') is not None) and filter_sensitive[di]:
                 # in this dump a class/thread filter changes which process a thread belongs to; whether the process filter should
